@@ -12,6 +12,7 @@ import json
 import random
 import sys
 import threading
+import time
 
 FUNCS = {}
 
@@ -63,6 +64,7 @@ def run_job(job):
     pool = job['pool']
     mode = job['mode']
     answers = {}
+    t_start = time.time()
     info = {'importing_thread_prec': decimal.getcontext().prec}
 
     def put(i, where, val):
@@ -120,6 +122,7 @@ def run_job(job):
     else:
         raise RuntimeError('unknown mode ' + mode)
     info['answers'] = answers
+    info['wall_s'] = round(time.time() - t_start, 1)
     return info
 
 
